@@ -4,6 +4,7 @@ C16 (expression interpreter), C14 (PRNG keys), C15 (operation objects)."""
 from __future__ import annotations
 
 import json
+import re
 import os
 import subprocess
 import sys
@@ -84,7 +85,7 @@ def check_c12(tier: str, seed: int) -> int:
                    "exact matrix of spec/Gates.tla whose algebraic identities (GateIdentities: unitarity, additive composition "
                    "of rotations, Clifford relations, ladder algebra, beam-splitter sectors, completeness of channels/POVMs) "
                    "TLC has checked",
-           "gate_identities_checked_by_tlc": 32, "matrix_entries_compared": res["entries_compared"]}
+           "gate_identities_checked_by_tlc": (int(re.search(r'"IDENTITIES", (\d+)', out).group(1)) if re.search(r'"IDENTITIES", (\d+)', out) else 0), "matrix_entries_compared": res["entries_compared"]}
     return _finish("C12", tier, seed, t0, "model_checking", cov, res["violations"],
                    ["lattice parameters only; displacement and squeezing matrices are not compared numerically "
                     "(transcendental entries): only unitarity on the occupied block and the vacuum statistics are observed",
